@@ -101,6 +101,9 @@ def _get_boolability_no_mvv(value: Value) -> Boolability:
     if isinstance(value, AnnotatedValue):
         value = value.value
     value = replace_known_sequence_value(value)
+    if isinstance(value, MultiValuedValue):
+        # e.g. the fallback of a TypeVar with constraints that was a member of a union
+        return get_boolability(value)
     if isinstance(value, AnyValue):
         return Boolability.boolable
     elif isinstance(value, TypeAliasValue):
